@@ -213,7 +213,18 @@ def gen_scenario_program(rng):
         else:
             d["setup"] = []
             c = body(1, False, False, 1 if rng.random() < 0.6 else 0, n=rng.randint(1, 3))
-            if not any(st[0] in ("wait", "waitfor", "waituntil", "loop", "try") for st in c):
+
+            def yields(stmts):
+                for st in stmts:
+                    if st[0] in ("wait", "waitfor", "waituntil", "dosc", "doscfor", "doscuntil"):
+                        return True
+                    if st[0] == "loop" and yields(st[2]):
+                        return True
+                    if st[0] == "try" and (yields(st[1]) or any(yields(h) for _, h in st[2])):
+                        return True
+                return False
+
+            if not yields(c):  # a compose block that never suspends is not a generator: Scenic refuses it
                 c.append(["wait", nid()])
             d["compose"] = c
         scenarios[sname] = d
